@@ -104,6 +104,9 @@ func GenC18(seed uint64) *Plan {
 		g.reorgFaults(p, g.between(1, 4))
 		p.Checks["settle"] = true
 	}
+	if g.chance(40) {
+		f.EarlyRefuseEvery = g.between(5, 40)
+	}
 	if g.chance(30) {
 		f.HTTPPerMille = g.between(5, 40)
 		f.HTTPKinds = 1<<hfConnErr | 1<<hfStatus | 1<<hfRPCError | 1<<hfNullResult
